@@ -15,7 +15,7 @@ from simkit.tape import digest_of
 from simkit import vclock
 
 ID = "C12"
-RUNS = {"quick": 70_000, "thorough": 1_500_000}
+RUNS = {"quick": 55_000, "thorough": 1_500_000}
 MAX_BATCH = 1000
 SIM_TIME_UNIT = "virtual milliseconds (1 per scheduler step)"
 RULE = (
